@@ -25,7 +25,7 @@ func init() {
 		},
 		Real:       append(append([]string{}, realAll...), "db/fs (compiled against the simulated os)", "db/postgres"),
 		Stub:       append(append([]string{}, stubAll...), "OS filesystem (simfs)", "Postgres server (pgfake)"),
-		FaultKinds: []string{"restart", "ext_error", "client_garbage"},
+		FaultKinds: []string{"restart", "ext_error", "client_garbage", "template_lookup_error"},
 	})
 }
 
@@ -48,6 +48,7 @@ func runC07(c *core.Ctx) *core.Outcome {
 	cfg.Backend = t.Weighted(3, 2, 1, 2)
 	cfg.SetSession = t.Chance(1, 2)
 	cfg.ResetOnEmpty = t.Chance(1, 6)
+	cfg.FinishAlways = t.Chance(1, 2) // gateway policy: save the session also after a request whose page could not be delivered
 	var a *app.App
 	exs := examples.All()
 	deep := 0
@@ -127,6 +128,10 @@ func runC07(c *core.Ctx) *core.Outcome {
 			}
 		}
 		mFresh := t.Chance(1, 2)
+		if t.Chance(1, 14) {
+			// the template store is down for this request - for all three twins alike
+			L.FailTemplateThisRequest, P.FailTemplateThisRequest, M.FailTemplateThisRequest = true, true, true
+		}
 		t.End()
 		inputs = append(inputs, in)
 		sl := L.Request(in, false)
@@ -171,6 +176,12 @@ func runC07(c *core.Ctx) *core.Outcome {
 		if sl.ExecErr != "" && sl.Cont {
 			// the engine refused the input and says the session continues
 			o.Faults["client_garbage"]++
+			continue
+		}
+		if sl.ExecErr == "" && sl.FlushErr != "" && sl.Cont && cfg.FinishAlways {
+			// the page was not delivered but the request was executed and - with this gateway policy -
+			// saved: the session goes on and the twins have to stay in step
+			o.Probes["continued_after_refused_render"]++
 			continue
 		}
 		if sl.ExecErr != "" || sl.FlushErr != "" || !sl.Cont {
